@@ -571,6 +571,16 @@ def _hnorm(t: str) -> str:
     return t.replace(">=", "≥").replace("<=", "≤").replace("^", "").replace("_", "").replace(" ", "")
 
 
+def name_collides(kind: str, name: str, rows) -> bool:
+    """a drawn column name that READS like a data cell of the frame once text conversion has dropped its `^` / `_` marks
+    (`r16c0_` beside the cell `r16c0`): the row of names could then not be told from that data row in the output. Only
+    the `cell-value` kind is meant to equal a cell (of another column; at most one per frame)."""
+    if kind == "cell-value":
+        return False
+    h = _hnorm(name)
+    return any(isinstance(v, str) and _hnorm(v) == h for r in rows for v in r)
+
+
 def is_name_header(texts, name_headers) -> bool:
     """the row shows exactly the names of the displayed columns of (a section of) the document, in their order"""
     return any(len(texts) == len(h) and all(_hnorm(t) == _hnorm(c) for t, c in zip(texts, h)) for h in name_headers)
@@ -616,7 +626,7 @@ def edge_names(rng, spec, info, p=0.5, permute=False, fixed=None):
         for _ in range(20):
             kind, name = draw_name(rng, current, cells, raw_ok=not shown,
                                    long_max=300 if role[c] == "data" else 120)
-            if name not in current and name != c:
+            if name not in current and name != c and not name_collides(kind, name, rows):
                 break
         else:
             continue
